@@ -4728,10 +4728,16 @@ class NetCDFRead(IORead):
         ncdim_groups = g["dimension_groups"].get(ncdim, ())
         n_ncdim_groups = len(ncdim_groups)
 
-        if g["variable_dimensions"].get(ncdim) == (ncdim,):
+        if g["variable_dimensions"].get(ncdim) == (ncdim,) and tuple(
+            field_groups
+        ) == tuple(ncdim_groups):
             # There is a Unidata coordinate variable for this
-            # dimension, so create a domain axis and dimension
-            # coordinate
+            # dimension in the data variable's own group, so create a
+            # domain axis and dimension coordinate. (When the data
+            # variable is in a sub-group, a coordinate variable in a
+            # closer group takes precedence by proximal search, and
+            # the one in the dimension's group is the last candidate
+            # of that search.)
             return ncdim, ""
 
         if not g["has_groups"]:
